@@ -33,6 +33,10 @@ from mysql_mimic.utils import seq, aiterate, cooperative_iterate
 logger = logging.getLogger(__name__)
 
 
+class AuthenticationFailed(Exception):
+    """The client was refused and has already been sent the ERR packet"""
+
+
 class Connection:
     _MAX_PREPARED_STMT_ID = 2**32
 
@@ -96,6 +100,9 @@ class Connection:
         try:
             await self.connection_phase()
             await self.session.init(self)
+        except AuthenticationFailed:
+            # The ERR packet has been sent: end the connection without serving it
+            return
         except Exception as e:
             await self.stream.write(self.error(msg=e, code=ErrorCode.HANDSHAKE_ERROR))
             raise
@@ -214,7 +221,7 @@ class Connection:
                     code=ErrorCode.USER_DOES_NOT_EXIST,
                 )
             )
-            return
+            raise AuthenticationFailed()
 
         user_plugin = (
             self.identity_provider.get_plugin(user.auth_plugin or "")
@@ -284,6 +291,7 @@ class Connection:
                     code=ErrorCode.ACCESS_DENIED_ERROR,
                 )
             )
+            raise AuthenticationFailed()
 
     async def command_phase(self) -> None:
         """https://dev.mysql.com/doc/internals/en/command-phase.html"""
@@ -331,6 +339,9 @@ class Connection:
                         ErrorCode.UNKNOWN_COM_ERROR,
                     )
 
+            except AuthenticationFailed:
+                # A refused COM_CHANGE_USER ends the connection
+                return
             except MysqlError as e:
                 logger.error(e)
                 await self.stream.write(self.error(msg=e.msg, code=e.code))
